@@ -1084,6 +1084,7 @@ func runC17(c *runCtx) error {
 	runC17Statements(c, e)
 	runC17Grid(c, e)
 	runC17PA(c, e)
+	t3Stream(c, e)
 	e.m.Exhaustive = c.thorough()
 	e.m.Notes = append(e.m.Notes,
 		"white space produced by the generators is ASCII; the lexer separates tokens at ' ' only, so statement cases use blanks (tabs/newlines appear in the renderer grid only)",
@@ -1673,6 +1674,318 @@ func runC17PA(c *runCtx, e *emitter) {
 		vars, what := paIllTyped(r, lex, 7)
 		for i, nl := range vars {
 			paCase(e, lead+c17Render(nl, mode), "ill_typed", base, what[i])
+		}
+	}
+}
+
+// ---------------------------------------------------------------- T3: execution errors of ACCEPTED
+// statements against the evaluator twins (corigin = 5 of Corr/C17.v).  Statements that BuildPlan
+// accepts and that FAIL while the plan is drained on some stored pair: division by zero at
+// several depths (divisor a call, an expression, a constant sub-expression the folder turns into
+// a literal, a re-associated sum), BETWEEN with crossed bounds (literal, folded, data dependent),
+// function argument errors raised by function bodies (substr / split / join / len), operand-type
+// errors reachable through list elements, errors without a position (comparison of unlike
+// kinds, vector lengths) -- wrapped 0..3 levels deep in arithmetic / text / Boolean context with
+// and without constant neighbours that get folded or re-associated next to the failing node,
+// placed in WHERE, in a select field, behind an alias used in WHERE, behind a chain of aliases.
+// Observed: class and Pos of the error of the row drain and of the batch drain.  coqc runs
+// parse_check + the statement-level folder twin + the drain twins on the same text and store.
+
+type t3Obs struct {
+	Class string `json:"class"` // ok | exec | syntax | other | panic
+	Pos   int    `json:"pos"`
+	Msg   string `json:"message,omitempty"`
+}
+
+type t3Replay struct {
+	Origin    string      `json:"origin"`
+	Query     string      `json:"query"`
+	Store     [][2]string `json:"store"`
+	BatchSize int         `json:"batch_size"`
+	FullScan  bool        `json:"full_scan"`
+	Row       t3Obs       `json:"row_mode"`
+	Batch     t3Obs       `json:"batch_mode"`
+	Kind      string      `json:"error_kind"`
+	Place     string      `json:"placement"`
+	Depth     int         `json:"wrappers"`
+	Folded    bool        `json:"constant_neighbours_folded"`
+}
+
+type t3Core struct {
+	kind   string
+	text   string
+	ty     byte // 'n' number, 's' text, 'b' Boolean
+	folded bool // contains a constant sub-expression the folder rewrites
+}
+
+var t3Cores = []t3Core{
+	{"div0/divisor_call", "10 / int(value)", 'n', false},
+	{"div0/divisor_call", "strlen(key) / int(value)", 'n', false},
+	{"div0/divisor_expr", "int(value) / (strlen(key) - 2)", 'n', false},
+	{"div0/divisor_conversion_default", "10 / int(key)", 'n', false},
+	{"div0/divisor_folded", "10 / (1 - 1)", 'n', true},
+	{"div0/divisor_folded", "int(value) / (2 * 3 - 6)", 'n', true},
+	{"div0/divisor_partly_folded", "10 / (int(value) * (2 - 2))", 'n', true},
+	{"div0/divisor_reassociated", "100 / (int(value) + 1 + 2 - 15)", 'n', true},
+	{"div0/dividend_reassociated", "(int(value) * 2 * 3) / int(value)", 'n', true},
+	{"div0/float", "1.5 / float(value)", 'n', false},
+	{"div0/float_folded", "float(value) / (0.5 - 0.5)", 'n', true},
+	{"func_arg/len", "len(key = 'a')", 'n', false},
+	{"func_arg/substr_second", "substr(key, 'a', 1)", 's', false},
+	{"func_arg/substr_third", "substr(key, int(value), 'x')", 's', false},
+	{"func_arg/split_second", "split(value, 1)[0]", 's', false},
+	{"func_arg/join_first", "join(1, key)", 's', false},
+	{"between/text", "value between 'z' and 'a'", 'b', false},
+	{"between/number", "int(value) between 9 and 1", 'b', false},
+	{"between/bounds_folded", "int(value) between (3 + 4) * 2 and 2 * 2", 'b', true},
+	{"between/bounds_concat_folded", "key between 'b' + 'c' and 'a' + 'b'", 'b', true},
+	{"between/bounds_from_data", "strlen(key) between int(value) and 1", 'b', false},
+	{"operand_type/list_element_eq", "list(key)[0] = 'a'", 'b', false},
+	{"operand_type/list_element_prefix", "ilist(1)[0] ^= 'a'", 'b', false},
+	{"operand_type/list_element_neq", "ilist(int(value))[0] != 'a'", 'b', false},
+	{"operand_type/list_element_concat(batch_only)", "ilist(1)[0] + 'a' = '1a'", 'b', false},
+	{"no_position/compare_unlike_kinds", "ilist(1)[0] > 'a'", 'b', false},
+	{"no_position/in_element_unlike_kinds", "ilist(1)[0] in ('a', 'b')", 'b', false},
+	{"no_position/vector_argument", "l2_distance(key, value) > 1", 'b', false},
+	{"in_list/element_fails", "key in ('a', upper(10 / int(value)))", 'b', false},
+	{"in_list/element_function_argument", "key in (lower('A'), substr(key, 'x', 1))", 'b', false},
+}
+
+type t3Wrap struct {
+	from, to byte
+	format   string
+	folds    bool
+}
+
+var t3Wraps = []t3Wrap{
+	{'n', 'n', "(%s) + 1", false},
+	{'n', 'n', "2 * (%s)", false},
+	{'n', 'n', "(%s) + 1 + 2", true},  // (X + 1) + 2  =>  X + (1 + 2)  =>  X + 3
+	{'n', 'n', "1 + 2 + (%s)", true},  // (1 + 2) + X  =>  3 + X
+	{'n', 'n', "(%s) * 2 * (1 + 1)", true},
+	{'n', 'n', "strlen(str(%s))", false},
+	{'n', 'n', "(3 - 3) + (%s)", true},
+	{'n', 'b', "(%s) > 1", false},
+	{'n', 'b', "(%s) = 2 + 3", true},
+	{'n', 'b', "(%s) between 1 and 9", false},
+	{'n', 's', "str(%s)", false},
+	{'s', 's', "upper(%s)", false},
+	{'s', 's', "(%s) + 'x'", false},
+	{'s', 's', "lower(%s) + 'a' + 'b'", true},
+	{'s', 'b', "(%s) = 'k'", false},
+	{'s', 'b', "(%s) ^= 'a' + 'b'", true},
+	{'s', 'n', "strlen(%s)", false},
+	{'b', 'b', "(%s) & value != 'q'", false},
+	{'b', 'b', "value != 'q' & (%s)", false},
+	{'b', 'b', "2 > 1 & (%s)", true},  // true & X  =>  X
+	{'b', 'b', "(%s) | 1 > 2", true},  // X | false =>  X
+	{'b', 'b', "!(%s)", false},
+	{'b', 'b', "value = 'q' | (%s)", false},
+	{'b', 'b', "(%s) & key ^= 'k'", false}, // narrows the scan to a prefix
+}
+
+// keys without digits: a text with a digit that is not a number ("k1") is outside the float-parser
+// twin (Base/Flt.v), and int(key) / list(key) read the key as a number
+var t3Stores = [][][2]string{
+	{{"ka", "12"}, {"kb", "7"}, {"kc", "0"}, {"kd", "abc"}, {"ke", "x,y,z"}, {"zz", "99"}},
+	{{"a", "0"}, {"b", "5"}},
+	{{"ka", "3"}, {"kb", "4"}, {"kc", "5"}, {"kd", "6"}, {"ke", "0"}},
+	{{"kaa", "1"}, {"kbb", "2"}, {"kk", "3"}},
+}
+
+func t3Classify(err error) t3Obs {
+	if err == nil {
+		return t3Obs{Class: "ok"}
+	}
+	tp, _, pos, msg, ok := c17PosErr(err)
+	if !ok {
+		return t3Obs{Class: "other", Msg: err.Error()}
+	}
+	if tp == "syntax" {
+		return t3Obs{Class: "syntax", Pos: pos, Msg: msg}
+	}
+	return t3Obs{Class: "exec", Pos: pos, Msg: msg}
+}
+
+func t3ClassNum(c string) int {
+	switch c {
+	case "ok":
+		return 0
+	case "exec":
+		return 1
+	case "syntax":
+		return 2
+	case "other":
+		return 3
+	}
+	return 4
+}
+
+// t3Run builds the plan and drains it in one mode.
+func t3Run(q string, kvs [][2]string, batch bool, B int) (o t3Obs, full, built bool) {
+	defer func() {
+		if r := recover(); r != nil {
+			o = t3Obs{Class: "panic", Msg: fmt.Sprint(r)}
+		}
+	}()
+	kvql.PlanBatchSize = B
+	kvql.EnableFieldCache = true
+	plan, err := kvql.NewOptimizer(q).BuildPlan(newStore(kvs))
+	if err != nil {
+		return t3Classify(err), false, false
+	}
+	built = true
+	if pp, ok := plan.(*kvql.ProjectionPlan); ok {
+		_, full = pp.ChildPlan.(*kvql.FullScanPlan)
+	}
+	res := drainPlan(plan, batch, runResult{})
+	if res.Panic != "" {
+		return t3Obs{Class: "panic", Msg: res.Panic}, full, true
+	}
+	return t3Classify(res.Err), full, true
+}
+
+var t3Seen = map[string]bool{}
+
+func t3Case(e *emitter, q string, kvs [][2]string, B int, kind, place string, depth int, folded bool) {
+	key := fmt.Sprintf("%s|%d|%d", q, len(kvs), B)
+	if t3Seen[key] {
+		e.count("t3/duplicate_skipped")
+		return
+	}
+	t3Seen[key] = true
+	row, full, built := t3Run(q, kvs, false, B)
+	if !built {
+		e.count("t3/rejected_by_BuildPlan(not_emitted)")
+		e.count("t3/rejected_by_BuildPlan/kind=" + kind)
+		return
+	}
+	bat, _, _ := t3Run(q, kvs, true, B)
+	rp := t3Replay{Origin: "exec-twin", Query: q, Store: kvs, BatchSize: B, FullScan: full, Row: row, Batch: bat,
+		Kind: kind, Place: place, Depth: depth, Folded: folded}
+	store := make([]string, 0, 2*len(kvs))
+	for _, kv := range kvs {
+		store = append(store, "EStr 0 "+coqStr(kv[0]), "EStr 0 "+coqStr(kv[1]))
+	}
+	fullN := 0
+	if full {
+		fullN = 1
+	}
+	term := fmt.Sprintf("Case %d 5 %s %s %s [] []%%Z None %s [%d; %d; %d]", t3ClassNum(row.Class), c17Segs(c17Encode(q, "")),
+		c17Z(row.Pos), c17Z(bat.Pos), coqList(store), t3ClassNum(bat.Class), B, fullN)
+	failing := row.Class != "ok" || bat.Class != "ok"
+	idx := e.add(term, rp, failing)
+	e.count("t3/cases")
+	if strings.Contains(q, "~=") || strings.Contains(q, "json") {
+		e.count("t3/context_with_regexp_or_json(outside_the_twins)")
+	}
+	e.count("t3/kind=" + kind)
+	e.count(fmt.Sprintf("t3/wrappers=%d", depth))
+	e.count("t3/place=" + place)
+	if folded {
+		e.count("t3/constant_neighbours=folded_or_reassociated")
+	} else {
+		e.count("t3/constant_neighbours=none")
+	}
+	e.count("t3/row=" + row.Class)
+	e.count("t3/batch=" + bat.Class)
+	if full {
+		e.count("t3/scan=full")
+	} else {
+		e.count("t3/scan=narrowed(position_membership_only)")
+	}
+	switch {
+	case !failing:
+		e.count("t3/outcome=no_failure_on_this_store")
+	case row.Class == bat.Class && row.Pos == bat.Pos:
+		e.count("t3/outcome=both_modes_same_class_and_pos")
+	case row.Class == "ok" || bat.Class == "ok":
+		e.count("t3/outcome=one_mode_only")
+	default:
+		e.count("t3/outcome=modes_differ")
+	}
+	for _, o := range []t3Obs{row, bat} {
+		if (o.Class == "exec" || o.Class == "syntax") && !(o.Pos == -1 || (o.Pos >= 0 && o.Pos < len(q))) {
+			e.fail(idx, fmt.Sprintf("execution error position %d is neither -1 nor inside the %d-byte query", o.Pos, len(q)), "C17/pos-range", rp)
+			return
+		}
+	}
+}
+
+func t3Stream(c *runCtx, e *emitter) {
+	r := newRng(c.seed*7919 + 33)
+	rounds := 2
+	if c.thorough() {
+		rounds = 12
+	}
+	if c.search {
+		rounds *= 3
+	}
+	wrapsFrom := func(ty byte) []t3Wrap {
+		var out []t3Wrap
+		for _, w := range t3Wraps {
+			if w.from == ty {
+				out = append(out, w)
+			}
+		}
+		return out
+	}
+	n := 0
+	for round := 0; round < rounds; round++ {
+		for ci, core := range t3Cores {
+			for depth := 0; depth <= 3; depth++ {
+				text, ty, folded := core.text, core.ty, core.folded
+				for d := 0; d < depth; d++ {
+					w := pick(r, wrapsFrom(ty))
+					text, ty = fmt.Sprintf(w.format, text), w.to
+					folded = folded || w.folds
+				}
+				// as a predicate / as a field of any type
+				pred := text
+				switch ty {
+				case 'n':
+					pred = "(" + text + ") > 1"
+				case 's':
+					pred = "(" + text + ") = 'k'"
+				}
+				use := map[byte]string{'n': "f > 1", 's': "f = 'k'", 'b': "f & value != 'q'"}[ty]
+				chain := map[byte]string{'n': "f + 1 + 2", 's': "upper(f) + 'a'", 'b': "!(f)"}[ty]
+				n++
+				kvs := t3Stores[(n+ci)%len(t3Stores)]
+				B := 2 + n%2
+				lead := []string{"", " ", "   "}[n%3]
+				place := (n + round) % 5
+				switch place {
+				case 0:
+					t3Case(e, lead+"select * where "+pred, kvs, B, core.kind, "where", depth, folded)
+				case 1:
+					t3Case(e, lead+"select key, "+text+" as f where value != 'q'", kvs, B, core.kind, "field", depth, folded)
+				case 2:
+					t3Case(e, lead+"select "+text+" as f, key where "+use, kvs, B, core.kind, "alias_in_where", depth, folded)
+				case 3:
+					t3Case(e, lead+"select "+text+" as f, "+chain+" as g, key where value != 'q'", kvs, B, core.kind, "alias_chain", depth, folded)
+				default:
+					t3Case(e, lead+"select key, "+text+" as f where key ^= 'k' & "+use, kvs, B, core.kind, "alias_in_where(narrowed_scan)", depth, folded)
+				}
+				// next to a random predicate of the statement grammar (row mode short-circuits & and |,
+				// batch mode evaluates both sides: the two modes may differ, the twins must follow)
+				{
+					g := &c17Gen{r: r}
+					ctx := c17Render(g.pred(1+n%2), n%3)
+					op := pick(r, []string{"&", "|", "and", "or"})
+					q := "select * where (" + ctx + ") " + op + " (" + pred + ")"
+					if n%2 == 0 {
+						q = "select * where (" + pred + ") " + op + " (" + ctx + ")"
+					}
+					t3Case(e, q, t3Stores[n%len(t3Stores)], 2+(n/2)%2, core.kind, "where_next_to_random_predicate", depth, folded)
+				}
+				// every core also plainly in WHERE on every store (depth 0 only)
+				if depth == 0 && round == 0 {
+					for si, s := range t3Stores {
+						t3Case(e, "select * where "+pred, s, 2+si%2, core.kind, "where", 0, core.folded)
+					}
+				}
+			}
 		}
 	}
 }
